@@ -352,8 +352,8 @@ def c03_faults(work, rep, tier, seed):
 # ----------------------------------------------------------------------------- C02
 
 def c02_plans(tier):
-    ps = [Plan("MC_Witness2(shared key)", W2(tier, BadAuths=ALL_AUTH), keyof=KEYOF, stores=("inmem", "sqlmem"), embeds=("id", "pow2"), nwalks=200, depth=15,
-               max_edges=None if tier != "quick" else 30000),
+    ps = [Plan("MC_Witness2(two logs sharing a key, one with its own)", W2("thorough", BadAuths=ALL_AUTH), keyof=KEYOF, stores=("inmem", "sqlmem"), embeds=("id", "pow2"), nwalks=200, depth=15,
+               max_edges=None if tier != "quick" else 40000),
           Plan("MC_Witness(hist)", H("quick", BadAuths=ALL_AUTH, BadKinds={"random"}), stores=("inmem",), embeds=("id",) if tier == "quick" else T_EMB)]
     return ps
 
